@@ -9,7 +9,9 @@ import uuid
 from collections.abc import Mapping, Sequence, Set
 from types import MappingProxyType
 
-from haiway import MISSING, Missing, State
+from haiway import MISSING, Missing, State, frozenlist
+
+type Pair[Element] = tuple[Element, Element]
 
 
 class E(enum.Enum):
@@ -91,6 +93,10 @@ def ann_to_py(a):
         return out
     if k == "alias":
         return typing.TypeAliasType("Alias", ann_to_py(xs[0]))
+    if k == "flist":
+        return frozenlist[ann_to_py(xs[0])]       # haiway's own parametrised alias of tuple[Value, ...]
+    if k == "pair":
+        return Pair[ann_to_py(xs[0])]
     raise ValueError(k)
 
 
@@ -206,6 +212,16 @@ def make_generic(a):
     key = ("generic", repr(a))
     if key not in _CLS:
         _CLS[key] = GHolder[ann_to_py(a)]
+    return _CLS[key]
+
+
+def make_generic_subclass(a):
+    """a plain subclass of the specialised holder: `class Sub(GHolder[annotation])` - the inherited attribute keeps the
+    type argument of the base it was declared in"""
+    key = ("generic-sub", repr(a))
+    if key not in _CLS:
+        base = make_generic(a)
+        _CLS[key] = type(State)("SubHolder", (base,), {"__module__": __name__, "__annotations__": {"extra": int}, "extra": 0})
     return _CLS[key]
 
 
